@@ -137,7 +137,7 @@ func genIsoConfigYAML(r *rng.R, tree *SrcTree, scriptsDir string) string {
 	script := func(n string) string { return q(filepath.Join(scriptsDir, n)) }
 	var b strings.Builder
 	name := rng.Pick(r, []string{"isoapp", "isoapp-tools", "libiso1"})
-	fmt.Fprintf(&b, "name: %s\narch: amd64\n", name)
+	fmt.Fprintf(&b, "name: %s\narch: %s\n", name, rng.Pick(r, []string{"amd64", "amd64", "386", "arm6", "arm7", "arm5", "arm64", "all", "mips64le"}))
 	fmt.Fprintf(&b, "version: %s\n", q(rng.Pick(r, []string{"1.2.3", "2.0.0-rc1", "v0.9.1", "1.0.0-beta.2+git5", "3.1.4"})))
 	if r.Chance(1, 3) {
 		fmt.Fprintf(&b, "release: %s\n", q(rng.Pick(r, []string{"1", "2", "3"})))
